@@ -30,6 +30,8 @@ CLAUSE_PROPERTY = {
     "RecordNotProduced": "C01", "RecordCount": "C01", "RecordReward": "C01", "RecordMissing": "C01",
     "CondFaithful": "C01", "ExploredActionPassed": "C01", "ChosenActionPassed": "C01", "ActionWithoutChoice": "C01",
     "ActionInBounds": "C10",
+    # exploration noise level 0: the environment receives exactly the live policy's (clipped) action
+    "ExplorationNoiseScale": "C10",
     "NoStepAfterEnd": "C11", "BudgetRespected": "C11", "StopsAtEpisodeLimit": "C11", "NoLearnBeforeWarmup": "C11", "ReturnedCount": "C11",
     "GreedyIsMaximiser": "C13", "GreedyOnCurrentEstimate": "C13", "EpsilonZeroAlwaysGreedy": "C13", "EpsilonOneNeverGreedy": "C13",
     "PolicyBeforeWarmup": "C13", "ExploreOnlyInWarmup": "C13", "ExecutedActionGreedy": "C13",
@@ -248,8 +250,10 @@ def replay_one(replay, pid):
 
 
 LOOP_INVS = ["StoredFaithful", "FirstOfEpisodeFromReset", "CondFaithful", "BudgetRespected", "EpisodeLimitRespected", "NoLearnBeforeWarmup", "ReturnedCount", "ExploreOnlyInWarmup",
-             "ExecutedActionGreedy"]
-LOOP_DEVS = {"stale_after_reset": ("C01", None), "store_done_flag": ("C01", "StoredFaithful"), "learn_early": ("C11", "NoLearnBeforeWarmup"),
+             "ExecutedActionGreedy", "EpisodesCountedOnce"]
+LOOP_DEVS = {"stale_after_reset": ("C01", None), "store_done_flag": ("C01", "StoredFaithful"),
+             # a step that returns terminated AND truncated at once: kept as "not terminated" / counted as two episodes
+             "store_term_unless_trunc": ("C01", "StoredFaithful"), "count_flags_separately": ("C11", None), "learn_early": ("C11", "NoLearnBeforeWarmup"),
              "break_before_count": ("C11", "ReturnedCount"), "return_plus_one": ("C11", "ReturnedCount"), "step_after_end": ("C11", None),
              # action ActOnStaleChoice: execute the choice made at the successor before the update instead of evaluating the current estimate
              "stale_choice": ("C13", "ExecutedActionGreedy"),
@@ -303,6 +307,13 @@ def binding_canary(traces, field="obs", ev="add", clause="StoreObs"):
                 e["n"] = e["n"] + 1
             elif field == "term":
                 e["term"] = not e["term"]
+            elif field == "term_of_both":
+                # the kept flag of a step that returned terminated AND truncated at once, stored as "not terminated"
+                both = _adds_of_both_steps(t)
+                if not both:
+                    continue
+                e = bad["events"][both[0]]
+                e["term"] = False
             elif field == "lrows.act":
                 # a prepared batch whose action column is rotated against the observation column
                 rows = e["lrows"]
@@ -323,6 +334,56 @@ def binding_canary(traces, field="obs", ev="add", clause="StoreObs"):
                 raise tlc.MachineryError(f"binding canary: corrupted {ev}.{field} not rejected by clause {clause}")
             return True
     raise tlc.MachineryError(f"binding canary: no trace with an '{ev}' event")
+
+
+def _adds_of_both_steps(t):
+    """Indices of the add events that keep a step which returned terminated=True and truncated=True (matched on the
+    successor tag of the kept row; used for non-vacuity and canaries only - the verdicts are LoopTrace's)."""
+    both = {(e.get("env", 0), tuple(e["obs"])) for e in t["events"] if e["ev"] == "step" and e.get("term") and e.get("trunc")}
+    return [i for i, e in enumerate(t["events"]) if e["ev"] == "add" and not e.get("auto") and "term" in e and e.get("chk_term", True)
+            and (e.get("env", 0), tuple(e.get("next", ()))) in both]
+
+
+def both_flag_coverage(traces):
+    """-> {routine: [steps with both flags, kept rows of such steps]}; every routine of the sweep that steps an
+    environment must have met a step with both flags set (MachineryError otherwise: vacuous step-kind coverage)."""
+    cov = {}
+    for t in traces:
+        c = cov.setdefault(t["cfg"]["routine"], [0, 0, 0])
+        c[0] += sum(1 for e in t["events"] if e["ev"] == "step" and e.get("term") and e.get("trunc"))
+        c[1] += len(_adds_of_both_steps(t))
+        c[2] += sum(1 for e in t["events"] if e["ev"] == "step")
+    missing = sorted(r for r, c in cov.items() if c[2] > 0 and c[0] == 0)
+    if missing:
+        raise tlc.MachineryError(f"no step with terminated AND truncated set in any run of {missing} (step kind 'both' not covered)")
+    return {r: c[:2] for r, c in cov.items() if c[2] > 0}
+
+
+def binding_canary_noise(traces):
+    """Zero-noise runs: replace the live policy's action of one policy-chosen step by a neighbouring float; the trace
+    specification must name ExplorationNoiseScale."""
+    import copy
+
+    from . import loopbind
+
+    for t in traces:
+        if t["cfg"].get("expl_noise8") != 0 or t.get("error"):
+            continue
+        ev = t["events"]
+        for i, e in enumerate(ev):
+            if e["ev"] == "step" and e.get("has_pol") and i and ev[i - 1]["ev"] == "policy":
+                a, lo, hi = e["actf"]["a"], e["actf"]["lo"], e["actf"]["hi"]
+                d = next((k for k in range(len(a)) if lo[k] + 1 < a[k] < hi[k] - 1), None)
+                if d is None:
+                    continue
+                bad = copy.deepcopy(t)
+                bad["id"] = "canary"
+                bad["events"][i]["pol"][d] += 1
+                out, r, _ = loopbind.validate([bad], tag="canaryn")
+                if "ExplorationNoiseScale" not in {c for _, c in out["canary"]["viol"]}:
+                    raise tlc.MachineryError("binding canary: a policy action one ulp off the executed action (noise level 0) not rejected")
+                return True
+    raise tlc.MachineryError("binding canary: no zero-noise run with a policy-chosen interior action")
 
 
 def binding_canary_bounds(traces):
